@@ -37,9 +37,15 @@ CallDone ==
   /\ UNCHANGED <<cfg, sp, enters, vetoed>> /\ Step
 \* nothing mandatory is missing
 Quiesce == Is("Quiesce") /\ (\A k \in (sp + 1)..Len(cfg.exphooks) : Opt(cfg.exphooks[k])) /\ UNCHANGED <<cfg, sp, enters, vetoed>> /\ Step
-Known == {"Reset", "Hook", "HEnter", "CallDone", "Quiesce", "CallHang", "SetupFailed"}
+\* scenarios that call several routes of one peer: every CALL is announced with the hook sequence expected for it; the
+\* previous exchange must be complete (nothing mandatory missing), the rules above then apply to the new one
+Target == Is("Target") /\ (\A k \in (sp + 1)..Len(cfg.exphooks) : Opt(cfg.exphooks[k]))
+          /\ cfg' = Ev /\ sp' = 0 /\ enters' = 0 /\ vetoed' = FALSE /\ Step
+\* "Fatal": the framework refused the configuration and asked for the process to end (erpc.Fatalf, e.g. "repeat add
+\* plugin"); every configuration of Plugins.tla is a legal one, so like CallHang and SetupFailed it is never accepted
+Known == {"Reset", "Hook", "HEnter", "CallDone", "Quiesce", "CallHang", "SetupFailed", "Target", "Fatal"}
 Skip == l <= N /\ (Ev.ev \notin Known \/ (Ev.ev = "Hook" /\ Ev.side # "srv")) /\ UNCHANGED <<cfg, sp, enters, vetoed>> /\ Step
-Next == Reset \/ Hook \/ HEnter \/ CallDone \/ Quiesce \/ Skip
+Next == Reset \/ Hook \/ HEnter \/ CallDone \/ Quiesce \/ Target \/ Skip
 Spec == Init /\ [][Next]_vars
 Accepted == PrintT(<<"HWM", TLCGet(1), N>>) /\ TRUE
 =============================================================================
